@@ -1,6 +1,7 @@
 package main
 
 import (
+	"encoding/json"
 	"fmt"
 	"strings"
 	"time"
@@ -20,6 +21,40 @@ type hdrLineSpec struct {
 }
 
 func (l hdrLineSpec) text() string { return l.Name + l.WS + ":" + l.Val + l.Term }
+
+// JSON forms that keep non-UTF-8 bytes (see bstr)
+type hdrLineSpecJ struct{ Name, WS, Val, Term bstr }
+
+func (l hdrLineSpec) MarshalJSON() ([]byte, error) {
+	return json.Marshal(hdrLineSpecJ{bstr(l.Name), bstr(l.WS), bstr(l.Val), bstr(l.Term)})
+}
+
+func (l *hdrLineSpec) UnmarshalJSON(d []byte) error {
+	var j hdrLineSpecJ
+	if err := json.Unmarshal(d, &j); err != nil {
+		return err
+	}
+	*l = hdrLineSpec{string(j.Name), string(j.WS), string(j.Val), string(j.Term)}
+	return nil
+}
+
+type valFormJ struct {
+	Text   bstr
+	VS, VE int
+}
+
+func (v valForm) MarshalJSON() ([]byte, error) {
+	return json.Marshal(valFormJ{bstr(v.Text), v.VS, v.VE})
+}
+
+func (v *valForm) UnmarshalJSON(d []byte) error {
+	var j valFormJ
+	if err := json.Unmarshal(d, &j); err != nil {
+		return err
+	}
+	*v = valForm{string(j.Text), j.VS, j.VE}
+	return nil
+}
 
 // value forms: text after the colon, with the expected value span relative to the start of that text
 type valForm struct {
@@ -242,6 +277,7 @@ func evalC07(cs *c07Case) (vs []*Violation) {
 		c.Extra = map[string]any{"case": cs}
 		vs = append(vs, &Violation{Property: "C07", Site: site, Rule: rule, Class: class, Detail: detail, Case: c})
 	}
+	defer recoverTo3(add)
 	// cross-check the generator with the reference tokenizer
 	ref, rend := refTokenize(buf)
 	if rend != len(block) || len(ref) != len(exp) {
@@ -287,6 +323,30 @@ func evalC07(cs *c07Case) (vs []*Violation) {
 	}
 	if hl.PFlags != wantFlags {
 		add("type-flags-equal-types-seen", "flags", fmt.Sprintf("PFlags=%#x want %#x", hl.PFlags, wantFlags))
+	}
+	// the same set through the query methods a caller uses (Test / Any / AllSet)
+	var seenT, unseenT []sipsp.HdrT
+	for t := sipsp.HdrNone + 1; t <= sipsp.HdrOther; t++ {
+		if _, ok := first[t]; ok {
+			seenT = append(seenT, t)
+		} else {
+			unseenT = append(unseenT, t)
+		}
+		if _, ok := first[t]; ok != hl.PFlags.Test(t) {
+			add("type-flags-equal-types-seen", "Test", fmt.Sprintf("Test(%v)=%v", t, hl.PFlags.Test(t)))
+		}
+	}
+	if !hl.PFlags.AllSet(seenT...) || (len(seenT) > 0 && !hl.PFlags.Any(seenT...)) {
+		add("type-flags-equal-types-seen", "AllSet/Any-of-seen", fmt.Sprintf("seen %v: AllSet=%v Any=%v", seenT, hl.PFlags.AllSet(seenT...), hl.PFlags.Any(seenT...)))
+	}
+	if hl.PFlags.Any(unseenT...) {
+		add("type-flags-equal-types-seen", "Any-of-unseen", fmt.Sprintf("unseen %v: Any=true", unseenT))
+	}
+	for _, u := range unseenT {
+		if hl.PFlags.AllSet(append(append([]sipsp.HdrT(nil), seenT...), u)...) || hl.PFlags.AllSet(u, seenT[0]) {
+			add("type-flags-equal-types-seen", "AllSet-with-an-unseen-type", fmt.Sprintf("seen %v + unseen %v: AllSet=true", seenT, u))
+			break
+		}
 	}
 	cmp := func(h *sipsp.Hdr, x hdrExp, what string, rulePfx string) {
 		if h.Type != x.Type {
@@ -440,6 +500,33 @@ func checkC07(r *Run) {
 						runCase(c, &c07Case{Lines: []hdrLineSpec{pair[0].l, pair[1].l}, VF: []valForm{pair[0].vf, pair[1].vf}, Blank: b, Cap: cp, WithVal: true, NilMask: mask})
 					}
 				}
+			}
+		}
+	})
+	// every byte value except CR / LF inside a generic header's value (first, middle, last position) and UTF-8 text
+	parallelFor(r, 256, func(c *enumCtx, x int) {
+		if x == '\r' || x == '\n' {
+			return
+		}
+		xs := string([]byte{byte(x)})
+		texts := []string{" a" + xs + "b", " a" + xs + "b c" + xs, " caf\xc3\xa9 " + xs + "\xe2\x82\xac"}
+		if x != ' ' && x != '\t' {
+			texts = append(texts, xs+"a", " "+xs, " a "+xs+" ")
+		}
+		for _, t := range texts {
+			vf := valForm{Text: t}
+			vs, ve := 0, len(t)
+			for vs < ve && strings.IndexByte(" \t", t[vs]) >= 0 {
+				vs++
+			}
+			for ve > vs && strings.IndexByte(" \t", t[ve-1]) >= 0 {
+				ve--
+			}
+			vf.VS, vf.VE = vs, ve
+			for ni, n := range []string{"Subject", "X-Gen", "v", "User-Agent"} {
+				l := hdrLineSpec{n, wss[ni%len(wss)], t, terms[(x+ni)%3]}
+				runCase(c, &c07Case{Lines: []hdrLineSpec{l}, VF: []valForm{vf}, Blank: "\r\n", Cap: -1})
+				runCase(c, &c07Case{Lines: []hdrLineSpec{l, red[x%len(red)].l}, VF: []valForm{vf, red[x%len(red)].vf}, Blank: "\r\n", Cap: 2, WithVal: true, NilMask: 0xff})
 			}
 		}
 	})
